@@ -89,6 +89,13 @@ type AToken struct {
 	// PreAttach: blocks attached to the token right after it is issued, i.e. before any token citing it
 	// is issued (C13)
 	PreAttach int `json:"preAttach,omitempty"`
+	// Bare (harness only; the model reads such a citation as link-only): the citation embeds the proof's
+	// root block alone - the same token as it comes out of an archive that lacks its own proofs. Only set
+	// where the same proof is also cited fully embedded by the same token, so that the blocks that travel
+	// are those the model predicts.
+	Bare []bool `json:"bare,omitempty"`
+	// EmptyAttach: a block of no bytes (identity CID) and its hashed twin are attached to the token
+	EmptyAttach bool `json:"emptyAttach,omitempty"`
 }
 
 // preBlock: the k-th block pre-attached to token tid (valid CBOR: [tid, k])
@@ -415,6 +422,10 @@ type CWorld struct {
 	connMu sync.Mutex
 	// counter: when set, every verifier the principal parser hands out counts its Verify calls here
 	counter *int64
+	// panicChecker: the revocation checker panics where it would report a revocation
+	panicChecker bool
+	// forgeReports: the request carries, next to the invocations, receipts for them signed by a stranger
+	forgeReports bool
 	// keepCtx: the validation context is built once and used for every Access on this world (a service
 	// that keeps its context); the caller then passes the same runLog each time
 	keepCtx bool
@@ -474,6 +485,14 @@ func (cw *CWorld) issue(t *AToken) (delegation.Delegation, error) {
 			// cites a token that does not exist in the world: a dangling link
 			prfs = append(prfs, delegation.FromLink(dummyLink(1000+p)))
 			continue
+		}
+		if i < len(t.Bare) && t.Bare[i] && !t.Inline[i] {
+			if bs1, err := blockstore.NewBlockStore(blockstore.WithBlocks([]ipld.Block{cw.D[p].Root()})); err == nil {
+				if bare, err := delegation.NewDelegation(cw.D[p].Root(), bs1); err == nil {
+					prfs = append(prfs, delegation.FromDelegation(bare))
+					continue
+				}
+			}
 		}
 		if t.Inline[i] {
 			prfs = append(prfs, delegation.FromDelegation(cw.D[p]))
@@ -650,6 +669,12 @@ func Concretise(w *AWorld) (*CWorld, error) {
 			if err := d.Attach(preBlock(i, k)); err != nil {
 				return nil, fmt.Errorf("attaching to token %d: %w", i, err)
 			}
+		}
+		if t.EmptyAttach {
+			hi, _ := mh.Sum([]byte{}, mh.IDENTITY, -1)
+			hs, _ := mh.Sum([]byte{}, mh.SHA2_256, -1)
+			d.Attach(block.NewBlock(cidlink.Link{Cid: cid.NewCidV1(0x55, hi)}, []byte{}))
+			d.Attach(block.NewBlock(cidlink.Link{Cid: cid.NewCidV1(0x55, hs)}, []byte{}))
 		}
 		if prev, dup := cw.idOf[d.Link().String()]; dup {
 			return nil, fmt.Errorf("tokens %d and %d have the same link", prev, i)
@@ -908,6 +933,10 @@ func (cw *CWorld) context(log *runLog) (canIssue validator.CanIssueFunc[any], ch
 		log.Checker = append(log.Checker, checkerCall{links, ok})
 		log.mu.Unlock()
 		if !ok {
+			if cw.panicChecker {
+				// a checker that cannot answer for this authorization (its store is down): it accepts nothing
+				panic("revocation store unavailable")
+			}
 			return validator.NewRevokedError(cw.D[bad])
 		}
 		return nil
